@@ -20,7 +20,7 @@ def _o(text, note):
 
 
 CHECK_TEXT = {
-    "C03": _t("Obligations of FakeSnowflakeConnection.__init__, FakeSnow.connect, conn.cursor, is_unqualified_table_expression, key_command, _transform and _execute that carry the session-context "
+    "C03": _t("Obligations of FakeSnowflakeConnection.__init__, FakeSnow.connect, conn.cursor, is_unqualified_table_expression, key_command, transforms.set_schema, _transform and _execute that carry the session-context "
               "invariant, the 90105/90106 guard and the USE bookkeeping are discharged for all statements and session states; known findings (USE DATABASE keeps the old schema name; USE SCHEMA without database; "
               "multi-table statements) are excluded by name and printed.",
               "Trusted: DuckDB resolves names against the search path set by SET schema; sqlglot shapes; the transform pipeline's well-formedness of bookkeeping arguments (A-WF). Bounded histories on the real stack."),
@@ -36,7 +36,7 @@ CHECK_TEXT = {
     "C13": _t("The fakesnow-side obligations (own DuckDB connection per connect shared by its cursors, COMMIT/ROLLBACK no-ops, conn.commit/rollback, statements run on the cursor's own connection) are discharged; "
               "atomicity/isolation are DuckDB's. Known finding: snapshot isolation hides another connection's COMMIT from a connection inside its own transaction.",
               "Trusted: DuckDB MVCC (A-DUCK 4). Bounded: interleavings of transactional scripts on two connections."),
-    "C14": _t("Every obligation of FakeSnowflakeConnection.__init__ (never raises, creates exactly what the options allow, context flags, upper-cased names, bootstrap, file naming) and FakeSnow.connect (option plumbing) "
+    "C14": _t("Every obligation of FakeSnowflakeConnection.__init__ (never raises, creates exactly what the options allow, context flags, upper-cased names, bootstrap, file naming), FakeSnow.connect (option plumbing) and transforms.create_database (same file function for CREATE DATABASE by statement) "
               "is discharged for all arguments, flags and prior catalog states.",
               "Trusted: meaning of the seven SQL templates of connect (A-DUCK 3), matched syntactically. Bounded: the complete configuration product on the real stack."),
     "C16": _t("The no-op path of execute (nothing parsed or transformed, exactly the success select, only when configured) is discharged; execute_string is outside the verifier's subset and decided by the bounded tier only.",
@@ -57,11 +57,12 @@ CHECK_TEXT = {
     "C01": _o("Deductive slice: connect sets the session time zone to UTC; fetchmany/fetchone/fetchall return the cells of the held arrow table unchanged, each row once. The value conversions (DuckDB, pyarrow) "
               "are outside any contract on fakesnow code: bounded round trips over every supported column type x boundary values x write path decide them. Known finding (NUMBER(p,0) wider than 18 digits read back as Decimal) printed.",
               "Not proof for the property as a whole: conversions by DuckDB/pyarrow are exercised on the stated bound only. Trusted: A-DUCK, A-ARROW."),
-    "C02": _o("Deductive slice: checks.equal is Snowflake identifier equality for all identifier pairs; upper_case_unquoted_identifiers is the first transform of every statement and precedes the context/status transforms; "
+    "C02": _o("Deductive slice: checks.equal is Snowflake identifier equality for all identifier pairs; upper_case_unquoted_identifiers turns exactly the unquoted identifiers into upper-case copies and leaves every other node untouched, "
+              "is the first transform of every statement and precedes the context/status transforms; "
               "conn.database/schema are the upper-cased arguments; status rows and USE bookkeeping use the normalised name. Bounded: scenario histories of every statement kind under keyword/identifier re-spellings "
               "(lower/UPPER/mIxEd/random, quoted upper-case naming) against the all-upper baseline. Known finding (information_schema column names reported in lower case) printed.",
-              "Not proof for the property as a whole. Trusted: sqlglot's case-insensitive parsing, DuckDB's case-insensitive resolution, the node-level transform upper_case_unquoted_identifiers itself (A-TX)."),
-    "C09": _o("Deductive slice: side-table SQL builders record a comment / text lengths for exactly catalog.schema.table as an upsert; _execute runs them right after a statement that declares a comment / text lengths, "
+              "Not proof for the property as a whole. Trusted: sqlglot's case-insensitive parsing and Expression.transform, DuckDB's case-insensitive resolution."),
+    "C09": _o("Deductive slice: extract_comment_on_table records (the statement's own table, a declared comment); side-table SQL builders record a comment / text lengths for exactly catalog.schema.table as an upsert; _execute runs them right after a statement that declares a comment / text lengths, "
               "for the statement's own table on the cursor's connection; Snowflake type names/precision/scale come from the proved rowtype table. Bounded: DDL histories against a reference catalog over all metadata surfaces. "
               "Known findings (4) printed.",
               "Not proof for the property as a whole: the information_schema / SHOW SQL is DuckDB's. Trusted: A-DUCK, A-SQLGLOT, A-WF, A-PURE."),
@@ -74,7 +75,7 @@ CHECK_TEXT = {
     "C12": _o("Deductive slice: merge() produces candidates + one mutation per WHEN clause in clause order + counts, parses each generated statement once, passes non-MERGE statements through and fails only for a MERGE; "
               "identifier equality used for source columns is proved. Bounded: MERGE clause combinations x data against a Python reference of Snowflake's MERGE. Known findings (4) printed.",
               "Not proof for the property as a whole: row-level semantics of the generated SQL are DuckDB's; _create_merge_candidates/_mutations/_counts have assumed contracts."),
-    "C15": _o("Deductive slice: each connection owns a fresh empty variable store shared by its cursors only; every statement text is inlined through it before parsing and binding; update_variables runs on every statement with "
+    "C15": _o("Deductive slice: SET binds exactly the named variable to the value's text, UNSET removes exactly it, every other statement leaves the store unchanged (Variables.update_variables/_set/_unset); each connection owns a fresh empty variable store shared by its cursors only; every statement text is inlined through it before parsing and binding; update_variables runs on every statement with "
               "that store; an undefined reference raises before anything is parsed or executed. Bounded: the substitution itself against a reference tokenizer, exhaustively over short texts, plus SET/UNSET histories. "
               "Known finding (adjacent references) printed.",
               "Not proof for the property as a whole: the substitution is a regular expression evaluated by CPython (A-PY re)."),
